@@ -76,6 +76,15 @@ Print Assumptions C05_terminates.
 (* early = the child may answer a line as soon as its first byte arrives; mid_peek / eof_ok = the in-loop
    `if (queue.Empty()) { peek(); if (queue.Empty()) throw }` of foldfilter and whether an end-of-file of that
    peek is tolerated once the queue is non-empty (regenerated from the source) *)
+(* Premise of the transition system that lives outside it: "child exited" (cexit) is what the collector observes as end
+   of file on the child's stdout, and closing the feeder's end is what the child observes as end of input.  That
+   needs Launch() (preprocess/captive_child.cc) to leave no copy of the child's pipe ends in the wrapper and none
+   of the wrapper's ends in the child; regenerated from the source (scoped_fd locals never release()d, no dup in
+   the parent, in.reset()/out.reset() before execvp in the child).  A leaked write end makes b64filter, whose
+   collector waits for that end of file, hang after printing everything. *)
+Theorem C05_launch_leaks_no_pipe_end : launch_no_leaked_pipe_end = true.
+Proof. reflexivity. Qed.
+
 Definition tool_params (order poison_first final_peek : bool) (cin cout : nat) (echo : bool) (kpol : option nat)
            (early mid_peek eof_ok : bool) : wparams :=
   mkP order poison_first final_peek cin cout echo kpol early mid_peek eof_ok.
